@@ -66,6 +66,9 @@ def snapshot(t, with_ranks=True):
     if with_ranks:
         snap["ids"] = [enc_value(_jsonable(r.getId())) for r in t.ranks]
         snap["ranklists"] = [[id(f) for f in r.getFibers()] for r in t.ranks]
+        # ... and whether each listed fiber names that rank as its owner (an operation that detaches the owners of its
+        # operand for a while must put them back, also when it is rejected)
+        snap["owned"] = [[f.getOwner() is r for f in r.getFibers()] for r in t.ranks]
         snap["fmt"] = [r.getFormat() for r in t.ranks]
         snap["name"] = t.getName()
         snap["mutable"] = bool(t.isMutable())
